@@ -102,6 +102,10 @@ def M_str_split_char(it, ctx, args, st):
     """str::split(char): the harness only passes values that do not contain the separator (single-segment parameters)"""
     s = sval(st, args[0])
     ch = concrete(args[1])
+    if ch != ord('/'):
+        # only path parameters (split on '/') are single-segment by the harness convention; any other split is executed for real
+        yield from models_std.M_str_split_char_real(it, ctx, args, st)
+        return
     if ch == ord('/') and encoded_input(st, s) is not None:
         yield st, It('list', (args[0],))
         return
